@@ -408,6 +408,10 @@ class Ctx:
             if isinstance(v, VStr): return [z3.IntVal(2), v.term, z3.IntVal(0)]
             if isinstance(v, VBytes): return [z3.IntVal(4), v.term, z3.IntVal(0)]
             return [z3.IntVal(3), z3.StringVal(''), self.fresh('dyn_id', IntSort)]
+        if isinstance(ty, _v._TKey2) and isinstance(v, VTuple) and len(v.items) == 2 and all(isinstance(i, VStr) for i in v.items):
+            t = _v.key2(v.items[0].term, v.items[1].term)
+            self.assume(_v.key2_inverse_facts(t, v.items[0].term, v.items[1].term))
+            return [t]
         if isinstance(ty, _v._TOpaque):
             if isinstance(v, VOpaque) and v.term is not None:
                 return [v.term]
